@@ -44,6 +44,7 @@ const (
 	c16FindMemAlias = "C16-mem-key-aliasing"
 	c16FindEtcdAli  = "C16-etcd-key-aliasing"
 	c16FindEtcdDel  = "C16-etcd-delete-topic-substring"
+	c16FindFetchAll = "C16-fetch-all-returns-nothing"
 )
 
 type c16Key struct {
@@ -87,6 +88,7 @@ type c16Info struct {
 	setupFailed                                                       string
 	zeroForAbsent                                                     int
 	faultCommits, faultAcked                                          int
+	fetchAll                                                          int
 }
 
 func c16Has(vals []c16Val, v c16Val) bool {
@@ -248,6 +250,54 @@ func c16Exec(store metadata.Store, sc c16Script, tolerateZero bool) (string, c16
 						model[k] = append(append([]c16Val(nil), allowed(k)...), v)
 					}
 				}
+			}
+		case "fetchall":
+			// OffsetFetch v2+ with a null topic array: every committed offset of the group
+			req := kmsg.NewPtrOffsetFetchRequest()
+			req.Group = op.Group
+			req.Topics = nil
+			resp, err := coords[op.Coord&1].OffsetFetch(ctx, req)
+			if err != nil || resp.ErrorCode != protocol.NONE {
+				info.fetchErr++
+				continue
+			}
+			info.fetchAll++
+			got := map[c16Key]c16Val{}
+			for _, rt := range resp.Topics {
+				for _, rp := range rt.Partitions {
+					if rp.ErrorCode != protocol.NONE {
+						continue
+					}
+					meta := ""
+					if rp.Metadata != nil {
+						meta = *rp.Metadata
+					}
+					k := c16Key{op.Group, rt.Topic, rp.Partition}
+					if rp.Offset == -1 {
+						got[k] = c16Val{}
+					} else {
+						got[k] = c16Val{true, rp.Offset, meta}
+					}
+				}
+			}
+			for k, v := range got {
+				want := allowed(k)
+				if !c16Has(want, v) && !(tolerateZero && c16Has(want, c16Val{}) && v == c16Val{true, 0, ""}) {
+					return fmt.Sprintf("op %d fetch-all of group %q lists %+v as offset=%d metadata=%q; last successful commit says %s", i, op.Group, k, v.Off, v.Meta, c16Show(want)), info
+				}
+			}
+			var missing []string
+			for k, want := range model {
+				if k.Group != op.Group || c16Has(want, c16Val{}) {
+					continue // other group, or possibly not committed
+				}
+				if _, ok := got[k]; !ok {
+					missing = append(missing, fmt.Sprintf("%q/%d (%s)", k.Topic, k.Part, c16Show(want)))
+				}
+			}
+			if len(missing) > 0 {
+				sort.Strings(missing)
+				return fmt.Sprintf("op %d fetch-all (null topic list) of group %q returned %d partitions and omits committed ones: %v", i, op.Group, len(got), missing), info
 			}
 		case "fetch":
 			req := kmsg.NewPtrOffsetFetchRequest()
@@ -511,7 +561,19 @@ func c16Generate(t *rapid.T, join func(c16Key) string, knownAlias string, etcd b
 	deleted := map[string]bool{}
 	nops := rapid.IntRange(2, 24).Draw(t, "nops")
 	for i := 0; i < nops; i++ {
-		kind := rapid.SampledFrom([]string{"commit", "fetch", "recommit-after-recreate", "two-coordinators", "commit", "fetch", "delete", "commit", "fetch"}).Draw(t, "kind")
+		kind := rapid.SampledFrom([]string{"commit", "fetch", "recommit-after-recreate", "two-coordinators", "fetchall", "commit", "fetch", "delete", "commit", "fetch"}).Draw(t, "kind")
+		if kind == "fetchall" {
+			if vfkit.Known(c16FindFetchAll) {
+				g.excluded[c16FindFetchAll] = true
+				kind = "fetch"
+			} else {
+				k := rapid.SampledFrom(pool).Draw(t, "fagroup")
+				op := c16Op{Kind: "fetchall", Group: k.Group, Coord: rapid.IntRange(0, 1).Draw(t, "coord")}
+				g.script.Ops = append(g.script.Ops, op)
+				g.trace = append(g.trace, fmt.Sprintf("fetchall@%d %q", op.Coord, op.Group))
+				continue
+			}
+		}
 		if kind == "recommit-after-recreate" || kind == "two-coordinators" {
 			// scenarios around re-committing a value a coordinator already wrote once
 			var legalKeys []c16Key
@@ -729,6 +791,9 @@ func c16Record(st *vfkit.Stats, leg string, g c16Gen, info c16Info) {
 	if info.deletes > 0 {
 		st.Class("topic-delete")
 	}
+	if info.fetchAll > 0 {
+		st.Class("fetch-all-null-topic-list")
+	}
 	if info.faultCommits > 0 {
 		st.Class("commit-under-dead-request-context")
 	}
@@ -848,6 +913,8 @@ func TestVF_C16_Witness(t *testing.T) {
 		script c16Script
 	}
 	wits := []wit{
+		{c16FindFetchAll, false, true, c16Script{Groups: []string{"g"}, Ops: []c16Op{commit("g", "t", 0, 7, "m1"), {Kind: "fetchall", Group: "g"}}}},
+		{c16FindFetchAll + "#etcd", true, true, c16Script{Groups: []string{"g"}, Ops: []c16Op{commit("g", "t", 0, 7, "m1"), {Kind: "fetchall", Group: "g"}}}},
 		{c16FindZero, false, false, c16Script{Groups: []string{"g"}, Ops: []c16Op{fetch("g", "t", 0)}}},
 		{c16FindZero + "#etcd", true, false, c16Script{Groups: []string{"g"}, Ops: []c16Op{fetch("g", "t", 0)}}},
 		{c16FindMemAlias, false, true, c16Script{Groups: []string{"a:b", "a"}, Ops: []c16Op{
